@@ -74,16 +74,21 @@ func ParseProgram(fsys fs.FS) (*ast.Tree, error) {
 				break
 			}
 			if tree, ok := trees[imp.Path]; ok {
-				// Check if there is a cycle.
-				for i, p := range imports {
-					if p.Path == imp.Path {
+				// Check if there is a cycle. Only the imports that have
+				// a tree are packages being parsed, which import the
+				// current package; the others are imports not yet visited.
+				for _, p := range imports {
+					if p.Path == imp.Path && p.Tree != nil {
 						// There is a cycle.
 						err := &CycleError{
 							path: p.Path,
 							pos:  *(imp.Pos()),
 						}
 						err.msg = "package "
-						for i, imp = range imports {
+						for i, imp := range imports {
+							if imp.Tree == nil {
+								continue
+							}
 							if i > 0 {
 								err.msg += "\n\timports "
 							}
